@@ -17,12 +17,26 @@ theorem numbered_getLast (k : Nat) (l : List PToken) (hne : l ≠ []) (h : Numbe
   have := List.length_pos_iff.mpr hne
   omega
 
-/-- an expression, whitespace, and one more operand: an implicit list -/
-theorem expr_list {e x ws : List PToken} (he : ExprOK e false) (hx : ListOpdOK x)
-    (hws : ∀ w ∈ ws, isTriviaTok w = true) (hwsp : ∃ w ∈ ws, w.type = .whitespace) :
-    ExprOK (e ++ (ws ++ x)) false := by
-  intro st0 ug p base hO hfs hprios hcg pos hnum rest
+/-- the whitespace of a frame never ends in a token other than trivia / separators -/
+theorem gfill_secdef {inG : Bool} {w : PToken} (hw : isGFill inG w = true) :
+    (getDefinition w.type).2 = .whitespace ∨ (getDefinition w.type).2 = .annotation ∨
+      (getDefinition w.type).2 = .subexpression := by
+  unfold isGFill at hw
+  by_cases htr : isTriviaTok w = true
+  · rcases trivia_secdef htr with h | h
+    · exact Or.inl h
+    · exact Or.inr (Or.inl h)
+  · have hsp : inG = true ∧ isSepTok w = true := by simpa [htr] using hw
+    have := hsp.2; unfold isSepTok at this
+    exact Or.inr (Or.inr (by simpa using this))
+
+/-- an expression, whitespace (inside a group: or separators), and one more operand: an implicit list -/
+theorem expr_list {inG : Bool} {e x ws : List PToken} (he : ExprOK inG e false) (hx : ListOpdOK x)
+    (hws : ∀ w ∈ ws, isGFill inG w = true) (hwsp : ∃ w ∈ ws, setsList w = true) :
+    ExprOK inG (e ++ (ws ++ x)) false := by
+  intro st0 ug p base hO hfs hprios hcg hk hsp pos hnum rest
   have hwne : ws ≠ [] := by obtain ⟨w, hw, _⟩ := hwsp; exact List.ne_nil_of_mem hw
+  obtain ⟨hbase, _⟩ := hfs.base_eq
   -- positions
   have hnume := numbered_prefix e _ pos hnum
   have hnum1 := numbered_append e _ pos hnum
@@ -30,29 +44,39 @@ theorem expr_list {e x ws : List PToken} (he : ExprOK e false) (hx : ListOpdOK x
   have hnumx := numbered_append ws x _ hnum1
   -- the expression so far
   obtain ⟨stE, E, re, cb, hloopE, hinvE, hgsE, hcgE, ho1E, ho2E, hrdE, hrefE⟩ :=
-    he st0 ug p base hO hfs hprios hcg pos hnume ((ws ++ x) ++ rest)
-  -- trivia: the list flag gets set
-  obtain ⟨stE', hloopW, hinvE', hnE', hgsE', hcgE', hcfl', _, hlt', hprev'⟩ :=
-    trivia_runU_ws ws stE (x ++ rest) hinvE (hrdE rfl) hws (Or.inr hwsp)
+    he st0 ug p base hO hfs hprios hcg hk hsp pos hnume ((ws ++ x) ++ rest)
+  have hkE : KindOK stE ug inG := by
+    apply hk.transfer (base := base) _ ho2E
+    intro g hg
+    cases hfs with
+    | top _ _ => cases hg
+    | bracket g' G pg h1 _ _ _ _ _ => injection hg with hg; omega
+  -- whitespace: the list flag gets set
+  obtain ⟨stE', hloopW, hinvE', hnE', hgsE', hcgE', hllE', hnnlE', hlt', hprev', hcflE'⟩ :=
+    fill_runU inG ws stE (x ++ rest) hinvE.toF hkE hws
+  have hcfl' : stE'.checkForList = true := hcflE' (hrdE rfl) (Or.inr hwsp)
   have hlast : ws.getLast? = some (ws.getLast hwne) := List.getLast?_eq_some_getLast hwne
   rw [hlast] at hlt' hprev'
   simp only [Option.getD_some, Option.map_some] at hlt' hprev'
-  have hprevT : stE'.previousSecondDef = .whitespace ∨ stE'.previousSecondDef = .annotation := by
-    rw [hprev']; exact trivia_secdef (hws _ (List.getLast_mem hwne))
+  have hprevT : stE'.previousSecondDef = .whitespace ∨ stE'.previousSecondDef = .annotation ∨
+      stE'.previousSecondDef = .subexpression := by
+    rw [hprev']; exact gfill_secdef (hws _ (List.getLast_mem hwne))
   have hltcol : stE'.lastToken.col = pos + e.length + ws.length - 1 := by
     rw [hlt']; exact numbered_getLast _ ws hwne hnumw
   have hwpos := List.length_pos_iff.mpr hwne
   -- the List operator
-  obtain ⟨nodes', info, hpt, hir, hsz', hOL, hpriosL, haboveL, hsL, hK⟩ := list_openU hinvE'
+  obtain ⟨nodes', info, hpt, hir, hsz', hOL, hpriosL, haboveL, hsL, hK⟩ := list_openU hinvE'.inv
   have hcgL : CGOK (listState stE' nodes' info) := by
     unfold CGOK at hcg ⊢
     show stE'.currentGroup = if stE'.groupStack.isEmpty then none else some (stE'.groupStack.size - 1)
     rw [hcgE', hgsE', hcgE, hgsE]; exact hcg
   -- the operand
   obtain ⟨st2, sub, cb', P, hloopX, hres, hP, hrefX⟩ :=
-    hx stE' ug nodes' info hinvE'.hug hinvE'.adjust hinvE'.nnl hcfl' hprevT hpt hir hOL hpriosL hcgL haboveL _ hnumx rest
+    hx stE' ug nodes' info hinvE'.hug hinvE'.adjust' (hnnlE'.trans hinvE.nnl) hcfl' hprevT hpt hir hOL hpriosL hcgL haboveL _
+      hnumx rest
   obtain ⟨re', hinv2, hdefs2, ho12, ho22, hdn⟩ := hK st2 sub cb' hres
-  rw [hnE'] at hinv2 hdefs2 ho12 ho22 hdn
+  have hnE'' : (normP stE').nodes = stE.nodes := hnE'
+  rw [hnE''] at hinv2 hdefs2 ho12 ho22 hdn
   refine ⟨st2, _, re', cb', ?_, hinv2, ?_, ?_, fun j hj => by rw [ho22 j hj, ho1E j hj],
     fun j hj => by rw [ho12 j hj, ho2E j hj], fun _ => hres.ready, ?_⟩
   · have e1 : e ++ (ws ++ x) ++ rest = e ++ ((ws ++ x) ++ rest) := by simp
@@ -60,23 +84,28 @@ theorem expr_list {e x ws : List PToken} (he : ExprOK e false) (hx : ListOpdOK x
     rw [e1, hloopE, e2, hloopW, hloopX]
   · rw [hres.gs]; show stE'.groupStack = _; rw [hgsE', hgsE]
   · rw [hres.cg]; show stE'.currentGroup = _; rw [hcgE', hcgE]
-  · intro f stack restR hc hl
+  · intro f stack restR hc hl hig
     have e1 : e ++ (ws ++ x) ++ restR = e ++ (ws ++ (x ++ restR)) := by simp
-    rw [e1, hrefE f stack _ hc hl]
-    rw [ref_skipK_ws ws _ stack (pos + e.length) (x ++ restR) hws (Or.inr hwsp)]
+    rw [e1, hrefE f stack _ hc hl hig]
+    let fE : Frame :=
+      { f with cur := toRG (dfOf stE.nodes) E, last := (if false then Last.suffix else Last.operand), ws := false,
+               prevSep := false }
+    have hig' : fE.inGroup = inG := hig
+    rw [ref_fill_ws inG ws fE stack (pos + e.length) (x ++ restR) hig' hws (Or.inr hwsp)]
     rw [hrefX _ stack restR rfl rfl]
     have hcong : ∀ i ∈ E.inorder, dfOf stE.nodes i = dfOf st2.nodes i := by
       intro i hi
-      have := hdefs2 i ((hinvE.n.mem i).mp hi).2
+      have := hdefs2 i (hinvE.n.mem i hi).2
       simp only [dfOf, this]
+    have hlt'' : (normP stE').lastToken.col = pos + e.length + ws.length - 1 := hltcol
     have hcur : P (attach Table.gen 220 false .list (pos + e.length + ws.length - 1) (toRG (dfOf stE.nodes) E)) =
-        toRG (dfOf st2.nodes) (insertC cb (prioAt stE.nodes) 220 false stE.nodes.size stE'.lastToken.col sub E) := by
-      rw [toRG_congr _ _ E hcong, hltcol]
+        toRG (dfOf st2.nodes) (insertC cb (prioAt stE.nodes) 220 false stE.nodes.size (normP stE').lastToken.col sub E) := by
+      rw [toRG_congr _ _ E hcong, hlt'']
       have := insertC_toRG (dfOf st2.nodes) (prioAt stE.nodes) 220 false stE.nodes.size
         (pos + e.length + ws.length - 1) sub cb P (by rw [hdn]; exact hP) (by rw [hdn]; rfl) E
         (by intro i hi
             rw [← hcong i hi]
-            exact prio_dfOf hinvE.n.prios ((hinvE.n.mem i).mp hi).2)
+            exact prio_dfOf hinvE.n.prios (hinvE.n.mem i hi).2)
         (hinvE.spine.congr hcong)
       rw [hdn] at this
       exact this
